@@ -169,13 +169,22 @@ Theorem C04_wrap_total_refuted :
 Proof. exact wrap_total_refuted. Qed.
 Print Assumptions C04_wrap_total_refuted.
 
-(* second remaining class, without untyped empties:  nums := [1] ; a:[][]any ; a = [[1]] + [nums]
-   (finding concat-ignores-inner-fixed-of-right-operand) *)
-Theorem C04_wrap_total_concat_inner_fixed_refuted :
-  exists e n target, tc e = ONode n false /\ accepts target (node_type n) = true /\ wrap_any n target = None /\
-    has_empty (node_type n) = false.
-Proof. exact wrap_total_concat_inner_fixed_refuted. Qed.
-Print Assumptions C04_wrap_total_concat_inner_fixed_refuted.
+(* regression, about parseBinaryExpr before commit 6b5553c:  nums := [1] ; a:[][]any ; a = [[1]] + [nums] *)
+Theorem C04_concat_inner_fixed_before_fix_refuted :
+  exists lt rt target, validate_binary OpPlus lt rt = true /\ has_empty lt = false /\ has_empty rt = false /\
+    accepts target (binary_node_type_pre_6b5553c OpPlus lt rt) = true /\ accepts target rt = false.
+Proof. exact concat_inner_fixed_before_fix_refuted. Qed.
+Print Assumptions C04_concat_inner_fixed_before_fix_refuted.
+
+(* … and on the current tree: the node carries the variable's flag, the program is a type error *)
+Theorem C04_concat_inner_fixed_now :
+  binary_node_type OpPlus (TArr false (TArr false TNum)) (TArr false (TArr true TNum)) = TArr false (TArr true TNum) /\
+  check (CAssign (SArr (SArr SAny))) (EBin OpPlus (EArr [EArr [ELitNum]]) (EArr [EVar (SArr SNum)])) = Reject /\
+  check (CAssign (SArr SAny)) (EBin OpPlus (EArr [EArr [ELitNum]]) (EArr [EVar (SArr SNum)])) = Reject /\
+  check (CAssign (SArr (SArr SNum))) (EBin OpPlus (EArr [EArr [ELitNum]]) (EArr [EVar (SArr SNum)])) =
+    Accept (TArr true (TArr false TNum)) (TArr false (TArr true TNum)).
+Proof. exact concat_inner_fixed_now. Qed.
+Print Assumptions C04_concat_inner_fixed_now.
 
 (* loop variables: typed with the element type for exactly the iterable operand types … *)
 Theorem C04_range_var_spec : forall t,
